@@ -12,6 +12,7 @@ import Sb.Corr.Container
 import Sb.Corr.YawOps
 import Sb.Corr.LightOps
 import Sb.Corr.RthOps
+import Sb.Corr.LoadOps
 
 open Sb.Corr
 
@@ -32,6 +33,7 @@ def dispatch (op : String) (args impl : List String) : Verdict :=
   | "fcorr" => opFcorr args impl
   | "lightq" => opLightq args impl
   | "rth" => opRth args impl
+  | "load2" => opLoad2 args impl
   | "traj" => opTraj args impl
   | "yawq" => opYawq args impl
   | "facc" => opFacc args impl
@@ -57,7 +59,7 @@ partial def loop (cases impl : IO.FS.Stream) (out : IO.FS.Stream) : IO Unit := d
       else
         match rest with
         | ["CRASH"] => out.putStrLn s!"{id} FAIL implementation crashed (sanitizer report / abort)"
-        | ["TIMEOUT"] => out.putStrLn s!"{id} FAIL implementation did not return (watchdog)"
+        | ["TIMEOUT"] => out.putStrLn s!"{id} FAIL {timeoutExplain op args}"
         | _ => out.putStrLn s!"{id} {(dispatch op args rest).render}"
     | [] => out.putStrLn s!"{id} BADCASE missing answer"
     loop cases impl out
